@@ -181,6 +181,23 @@ def generate(rng, tier):
                                                                       ("5 pears", 15.0), ("3 apples", 3.0), ("2 pears 4 apples", 10.0)]))
     cases.append(picky(["{NUMBER:x} pears", "{NUMBER:y} apples"], [("3 apples + 5 pears", 18.0), ("5 pears + 3 apples", 18.0)]))
     cases.append(picky(["{NUMBER:y} {TEXT:fruit}", "{TEXT:fruit} {NUMBER:x}"], [("3 apples + pears 5", 18.0), ("pears 5", 15.0)]))
+    # the order of add_rule and add_dynamic_type(_item) is irrelevant: a rule whose field names a family that is created
+    # later fires once the family exists
+    def gauge(rule_first):
+        rule = {"op": "add_rule", "lang": "en", "patterns": ["{DYNAMIC_TYPE:q:pressure} gauge"], "name": "gauge", "kind": "const_number",
+                "k": str(bits(4.0)), "cur": ""}
+        fam3 = [{"op": "add_type", "name": "pressure"},
+                {"op": "add_type_item", "name": "pressure", "index": 1, "format": "{value} bar", "parse": ["{NUMBER:value} {TEXT:type:bar}"],
+                 "up": "{value}", "down": "{value}", "names": ["bar"]}]
+        ops = ([rule] + fam3) if rule_first else (fam3 + [rule])
+        checks = [("ret", i, True) for i in range(len(ops))]
+        for t, v in (("3 bar gauge", 4.0), ("7 bar gauge + 1", 5.0)):
+            ops.append({"op": "exec", "lang": "en", "text": t})
+            checks.append(("abs", len(ops) - 1, v))
+        return {"ops": ops, "meta": {"kind": "rule-before-family" if rule_first else "family-before-rule", "checks": checks,
+                                     "interesting": True, "pair": None}}
+    cases.append(gauge(True))
+    cases.append(gauge(False))
     # user-defined unit families; the duplicate registrations come AFTER the family has items, and one targets a
     # built-in family: a rejected registration must not change any behaviour
     def item(name, index, fmt, word, up, down):
